@@ -56,6 +56,7 @@ pxgstrf_mark_busy_descends(int_t pnum, int_t jcol, int_t *etree,
     register int_t w,  kcol, fsupc, bcol_reg;
     int_t *xsup;
 
+    SLU_MT_VEV(VE_MARK_BUSY, pnum, jcol, *bcol);
     bcol_reg = *bcol;
     if ( bcol_reg < jcol ) {
 	
@@ -101,6 +102,7 @@ if (jcol >= LOCOL && jcol <= HICOL)
 	/* INVARIANT: *bcol must be the first column of the farthest
 	   busy supernode */
 	*bcol = fsupc;
+	SLU_MT_VEV(VE_MARK_BUSY_END, pnum, jcol, *bcol);
 			 
     } /* if bcol_reg < jcol */
 }
